@@ -278,6 +278,89 @@ def run_d(case, ctx):
             'inconclusive': inconc}
 
 
+def _l_cases():
+    """L: a LEADING path-symbol reference (root act / tmp) followed by a suffix that starts with one more slash, written
+    literally or brought in by a string symbol whose value is an absolute path into the home directory / a directory
+    outside: the suffix is joined to the symbol's path - nothing may be created outside the sandbox."""
+    i = 0
+    for root in ('-rel-act', '-rel-tmp'):
+        for form in ('literal', 'strsym', 'strsym-direct', 'via-path-def', 'copy-dst', 'dir', 'soft-quoted'):
+            for target in ('home', 'outside'):
+                i += 1
+                yield {'t': 'L', 'root': root, 'form': form, 'target': target,
+                       'phase': ('setup', 'before-assert', 'cleanup')[i % 3]}
+
+
+def run_l(case, ctx):
+    ses = ctx.get_session()
+    d = os.path.realpath(ses.new_case_dir({'src.txt': 'source text', 'victim/keep.txt': 'k'}))
+    outside = os.path.join(ctx.scratch, 'c12-outside-l-%d' % os.getpid())
+    os.makedirs(outside, exist_ok=True)
+    tgt = os.path.join(d, 'victim') if case['target'] == 'home' else outside
+    defs = ['def path P = %s base' % case['root'], 'def string S = ' + tgt]
+    form = case['form']
+    if form == 'literal':
+        instr = 'file @[P]@/%s/../%s/x.txt = "hello"' % (tgt, os.path.basename(tgt))
+    elif form == 'soft-quoted':
+        instr = 'file "@[P]@/%s/x.txt" = "hello"' % tgt
+    elif form == 'strsym':
+        instr = 'file @[P]@/@[S]@/x.txt = "hello"'
+    elif form == 'strsym-direct':
+        instr = 'file @[P]@/@[S]@ = "hello"'
+    elif form == 'via-path-def':
+        defs.append('def path Q = @[P]@/@[S]@')
+        instr = 'file @[Q]@/x.txt = "hello"'
+    elif form == 'copy-dst':
+        instr = 'copy -rel-home src.txt @[P]@/@[S]@/copied.txt'
+    else:
+        instr = 'dir @[P]@/@[S]@/newdir'
+    L = ['[setup]'] + defs
+    if case['phase'] == 'setup':
+        L += [instr, '[act]', '$ true']
+    else:
+        L += ['[act]', '$ true', '[%s]' % case['phase'], instr]
+    text = '\n'.join(L) + '\n'
+    with open(os.path.join(d, 't.case'), 'w') as f:
+        f.write(text)
+    before, before_out = snapshot_tree(d), snapshot_tree(outside)
+    r = ses.run(['--keep', os.path.join(d, 't.case')], cwd=d, mode='keep')
+    after, after_out = snapshot_tree(d), snapshot_tree(outside)
+    viol, inconc = [], []
+    ident = first_line(r.err)
+    label = 'L leading reference to a path symbol (%s) + suffix with an absolute part (%s, into %s) in [%s]' % (
+        case['root'], form, case['target'], case['phase'])
+
+    def bad(msg):
+        viol.append({'what': 'C12 %s: %s' % (label, msg),
+                     'detail': {'case_text': text, 'observed': {'rc': r.rc, 'ident': ident, 'stderr': r.err[:800]}}})
+
+    if r.timed_out:
+        inconc.append('watchdog')
+    elif r.exc is not None:
+        bad('exception escaped MainProgram.execute')
+    else:
+        ctx.count('c12.home_snapshots_compared')
+        ctx.count('c12.leading_ref_abs_suffix_checks')
+        hd, od = _diff(before, after), _diff(before_out, after_out)
+        if any(hd.values()):
+            bad('home directories modified: %r' % (hd,))
+        if any(od.values()):
+            bad('a directory outside the sandbox was modified: %r' % (od,))
+        if r.rc == 0 and ident == 'PASS':
+            sds = r.out.strip()
+            sub = 'act' if case['root'] == '-rel-act' else 'tmp'
+            below = os.path.join(sds, sub, 'base')
+            if not (os.path.isdir(below) and os.listdir(below)):
+                bad('the case PASSes but nothing was created below the path of the symbol (%s/base): where did the '
+                    'object go?' % sub)
+        elif r.rc not in (65, 128):
+            bad('outcome %s/%r' % (ident, r.rc))
+    ses.clean_tmp()
+    ses.drop(d)
+    return {'classes': [('L', case['root'], form, case['target'], case['phase'], ident)], 'viol': viol,
+            'inconclusive': inconc}
+
+
 def _f_cases():
     """F: what one instruction accepts must not depend on which instructions were read before it, in the same case
     file - run in a FRESH interpreter, so that nothing read by earlier cases of this worker can mask the order.
@@ -420,6 +503,8 @@ def cases(tier, seed):
     for c in _s_cases():
         yield c
     for c in _d_cases():
+        yield c
+    for c in _l_cases():
         yield c
     for c in _f_cases():
         yield c
@@ -1021,6 +1106,8 @@ def run_case(case, ctx):
         return run_s(case, ctx)
     if case['t'] == 'D':
         return run_d(case, ctx)
+    if case['t'] == 'L':
+        return run_l(case, ctx)
     if case['t'] == 'F':
         return run_f(case, ctx)
     if case['t'] == 'E':
